@@ -27,7 +27,7 @@ pub enum Case {
 
 const FUN_PREFIX_TAIL: &[u8] = &[119, 1, b'm', 97, 0, 97, 0, 88, 119, 1, b'n', 0, 0, 0, 0, 0, 0, 0, 0, 0, 0, 0, 0];
 
-fn deflate(body: &[u8]) -> Vec<u8> {
+pub fn deflate(body: &[u8]) -> Vec<u8> {
     let mut e = flate2::write::ZlibEncoder::new(Vec::new(), flate2::Compression::fast());
     e.write_all(body).unwrap();
     e.finish().unwrap()
@@ -339,6 +339,33 @@ fn nested_count_bombs() -> Vec<Case> {
     v
 }
 
+/// a distribution header that introduces a few long atoms, followed by a list of many two-byte references to them: a reader
+/// that copies the atom text per reference asks for (atom length x references) bytes
+fn cache_ref_amplification() -> Vec<Case> {
+    let mut v = vec![];
+    for alen in [255usize, 4_000, 60_000, 65_535] {
+        for nrefs in [1_000u32, 4_000, 30_000] {
+            for n_atoms in [1usize, 8] {
+                let refs: Vec<refmodel::dist::HeaderRef> = (0..n_atoms)
+                    .map(|i| refmodel::dist::HeaderRef { slot: (i * 300 % 2048) as u16, new: true, atom: format!("{}{}", i, "x".repeat(alen - 1)) })
+                    .collect();
+                let mut b = vec![131u8, 68];
+                b.extend_from_slice(&refmodel::dist::hdr_write(&refs));
+                // control: a list of references, payload: a tuple of the same
+                b.push(108);
+                b.extend_from_slice(&nrefs.to_be_bytes());
+                for k in 0..nrefs {
+                    b.extend_from_slice(&[82, (k as usize % n_atoms) as u8]);
+                }
+                b.push(106);
+                b.extend_from_slice(&[104, 2, 82, 0, 82, (n_atoms - 1) as u8]);
+                v.push(Case::Raw(b));
+            }
+        }
+    }
+    v
+}
+
 fn compressed_cases(big: bool) -> Vec<Case> {
     let mut v = vec![];
     let ns: Vec<u32> = if big { vec![0, 10, 1000, 100_000, 5_000_000, 50_000_000] } else { vec![0, 10, 1000, 100_000, 5_000_000] };
@@ -385,7 +412,7 @@ fn truncations(seed: [u8; 32], n: usize) -> Vec<Case> {
 
 pub fn run(run: &mut Run) {
     run.rule = "adversarial inputs built for the purpose, each run through all nine decoding entry points in an isolated worker process on 2 MiB-stack threads under a counting allocator: \
-        (a) every tag with a length/arity/count field (for closures both size fields; and 2..250 nested containers that each announce up to 2^32-1 elements in front of 0..100000 one-byte terms) x {0,1,255,256,65535,65536,10^6,10^7,10^7+1,10^8,2^31-1,2^31,2^32-1} x little or no data behind it, at top level and inside each container; \
+        (a) every tag with a length/arity/count field (for closures both size fields; 1000..30000 two-byte atom-cache references to 1..8 atoms of 255..65535 bytes introduced by the message's own distribution header; and 2..250 nested containers that each announce up to 2^32-1 elements in front of 0..100000 one-byte terms) x {0,1,255,256,65535,65536,10^6,10^7,10^7+1,10^8,2^31-1,2^31,2^32-1} x little or no data behind it, at top level and inside each container; \
         (b) nesting to depth 2..10^6 through every container tag (tuples, list element/tail, map key/value, fun free variable, LOCAL_EXT, COMPRESSED-in-COMPRESSED); (c) COMPRESSED sections that inflate \
         to less than, exactly, and up to 10^7 x more than declared; (d) every truncation of a sample of valid encodings; (e) bit flips, boundary overwrites, splices; (f) raw bytes. \
         Oracle: every entry point returns, worker alive, peak requested bytes <= 1 MiB + 256 x (input length + legitimately inflated bytes). Non-trivial = input of >= 3 bytes behind the version byte; distinct by bytes"
@@ -397,6 +424,7 @@ pub fn run(run: &mut Run) {
     ];
     run.enumerate("count-bombs", all_count_bombs().into_iter(), oracle);
     run.enumerate("nested-count-bombs", nested_count_bombs().into_iter(), oracle);
+    run.enumerate("cache-ref-amplification", cache_ref_amplification().into_iter(), oracle);
     run.enumerate("deep-nesting", depth_cases(run.tier.pick(1_000_000, 1_000_000)).into_iter(), oracle);
     run.enumerate("compressed", compressed_cases(run.tier == crate::engine::Tier::Thorough).into_iter(), oracle);
     let t = truncations(run.seed_for("truncations"), run.tier.pick(60, 1500));
@@ -413,6 +441,7 @@ pub fn replays() -> Vec<ReplayEntry> {
         replay_entry("count-bombs", oracle),
         replay_entry("nested-count-bombs", oracle),
         replay_entry("deep-nesting", oracle),
+        replay_entry("cache-ref-amplification", oracle),
         replay_entry("compressed", oracle),
         replay_entry("all-truncations", oracle),
         replay_entry("mutations-and-random", oracle),
